@@ -108,4 +108,6 @@ class Rendered(object):
                             cells = [_own_text(s["o"], k + 1) for k, s in enumerate(row)] + [x[1] for x in extra]
                             reg(self._take("scenario"), emit(ind + "    | " + " | ".join(cells) + " |"))
         items(f["items"], "  ")
-        self.files.append(("f%d.feature" % fi, "\n".join(lines) + "\n"))
+        # prog["revfiles"]: file names in reverse alphabetical order of the run order (f2, f1, f0)
+        nfeat = len(self.prog["features"])
+        self.files.append(("f%d.feature" % ((nfeat - 1 - fi) if self.prog.get("revfiles") else fi), "\n".join(lines) + "\n"))
